@@ -241,7 +241,7 @@ def worker(widx, seed, tier, stats):
 def run(tier, seed):
     t0 = time.time()
     stats = runner.run_workers(__name__, 'worker', seed, tier)
-    regress(stats)
+    common.run_regress(ID, stats, check_case)
     return runner.finish(ID, tier, seed, LEVEL, RULE, stats, t0, ASSUME)
 
 
